@@ -283,6 +283,21 @@ def r4_decimal_total(ctx, eng, rule="C10.R4"):
     ctx.decide(oks == ["Ok(DoubleLiteral)", "Ok(IntegerLiteral)", "Ok(LongLiteral)"], rule,
                rule + ":process_dec:tiers", dec.loc, "INTEGER, LONG, DOUBLE",
                "process_dec yields %s" % oks)
+    # `with leading zeros`: the tier is decided by the value, never by how many characters were written
+    by_len = []
+    for g in [dec] + prog.closures_of(dec):
+        gpv = mir.Prov(g.body)
+        for b, t in g.body.calls():
+            nm = (t.get("cpath") or "").split("::")[-1]
+            if nm in ("len", "count", "chars", "bytes") and t["args"]:
+                o = gpv.of_operand(t["args"][0])
+                if not mir.origin_mentions(o, lambda z: z[0] == "call" and "trim_start_matches" in z[1]):
+                    by_len.append("%s (line %s)" % (nm, t.get("ln")))
+    ctx.decide(not by_len, rule, rule + ":process_dec:tier-by-value-not-by-spelling", dec.loc,
+               "the literal's type is decided from the parsed value only",
+               "process_dec looks at the length / characters of the literal's text (%s): the number of digits "
+               "written does not bound the value (leading zeros), so `00000000001` or `00000032767` gets a wider "
+               "type than the value needs" % ", ".join(by_len))
     # &H / &O literals: both converters end in create_expression_from_bit_vec
     conv = [f for f in prog.fns.values()
             if f.name == "create_expression_from_bit_vec" and "integer_or_long_literal" in f.id]
@@ -311,7 +326,7 @@ def r4_decimal_total(ctx, eng, rule="C10.R4"):
     ctx.decide(found == {"SingleLiteral", "DoubleLiteral"}, rule, rule + ":fraction:tiers",
                cl[0].loc if cl else "single_or_double_literal.rs", "SINGLE or DOUBLE",
                "fraction literal parser constructs %s" % sorted(found))
-    ctx.require(rule, 5)
+    ctx.require(rule, 6)
 
 
 def r3_negative_literal_guard(ctx, rule="C10.R3"):
